@@ -18,6 +18,9 @@ EXH_ALPHABET = [
 ]
 
 
+# doubles that are equal up to the last bits (0.1, 0.3-0.2, 0.1+0.2, 0.3, 0.5, next after 0.5), as raw bit patterns
+NEAR_DELAYS = ['x3fb999999999999a', 'x3fb9999999999998', 'x3fd3333333333334', 'x3fd3333333333333', 'x3fe0000000000000', 'x3fe0000000000001']
+
 def strip_tm(line):
     return re.sub(r" tm=\S*", "", line)
 
@@ -37,6 +40,8 @@ def gen_random(rng, n_ops):
             live[nxt] = ("m", spec); nxt += 1
         elif r < 0.55:
             p, t, d = rng.choice(procs), f"t{rng.choice([0, 0, 1, 2])}", rng.choice([0, 1, 1, 2, 3])
+            if rng.random() < 0.25:
+                d = rng.choice(NEAR_DELAYS)      # delays that differ in the last bits only: `<=` on delays is exact
             ops.append(f"pt {p} {t} {d}")
             live[nxt] = ("t", f"{p} {t} {d}"); nxt += 1
         elif r < 0.75:
@@ -89,6 +94,8 @@ def gen_random_tracked(rng, n_ops):
             ops.append(f"pm {spec}"); live[nxt] = ("m", spec); nxt += 1
         elif r < 0.5:
             p, t, d = rng.choice(procs), f"t{rng.choice([0, 1])}", rng.choice([0, 1, 2, 2])
+            if rng.random() < 0.25:
+                d = rng.choice(NEAR_DELAYS)
             ops.append(f"pt {p} {t} {d}"); live[nxt] = ("t", f"{p} {t} {d}"); tm[(p, t)] = nxt; nxt += 1
         elif r < 0.72:
             i = rng.choice(list(live)); ops.append(f"pop {i}")
